@@ -95,7 +95,26 @@ LookCases == {[Base EXCEPT !.ciphers = <<4865, Look[i], 4866, G1, Look[j]>>, !.e
 \* ---- recver: the same hellos under every record-layer version 3.0 .. 3.4
 RecVerCases == {[recminor |-> m] @@ h : m \in 0..4, h \in {Base, [Base EXCEPT !.legacy = 769, !.exts = <<Sni(Host)>>], [Base EXCEPT !.exts = <<Sv(<<772, 771>>), AlpnE(<<H2>>)>>]}}
 
-Cases == CASE Fam = "recver" -> RecVerCases [] Fam = "lookalike" -> LookCases [] Fam = "alpn" -> AlpnCases [] Fam = "embed" -> EmbedCases [] Fam = "ver" -> VerCases [] Fam = "presence" -> PresenceCases [] Fam = "perm" -> PermCases
+\* ---- sni: host names of every shape a client may send -- address literals (IPv4, IPv6, bracketed), numeric-looking names, one
+\* character, upper case, a trailing dot, punycode, a 63-character label: the SNI flag says that the extension is there, the reported
+\* name is the octets of the extension
+SniHosts == {<<49, 57, 50, 46, 48, 46, 50, 46, 49, 48>>,
+             <<50, 48, 48, 49, 58, 100, 98, 56, 58, 58, 49>>,
+             <<58, 58, 49>>,
+             <<49, 46, 50, 46, 51>>,
+             <<49, 48, 46, 101, 120, 97, 109, 112, 108, 101, 46, 99, 111, 109>>,
+             <<97>>,
+             <<69, 88, 65, 77, 80, 76, 69, 46, 67, 79, 77>>,
+             <<101, 120, 97, 109, 112, 108, 101, 46, 99, 111, 109, 46>>,
+             <<120, 110, 45, 45, 98, 99, 104, 101, 114, 45, 107, 118, 97, 46, 101, 120, 97, 109, 112, 108, 101>>,
+             <<91, 50, 48, 48, 49, 58, 100, 98, 56, 58, 58, 49, 93>>,
+             <<48, 120, 55, 102, 46, 49>>,
+             <<108, 111, 99, 97, 108, 104, 111, 115, 116>>,
+             <<50, 53, 54, 46, 49, 46, 49, 46, 49>>,
+             <<97, 97, 97, 97, 97, 97, 97, 97, 97, 97, 97, 97, 97, 97, 97, 97, 97, 97, 97, 97, 97, 97, 97, 97, 97, 97, 97, 97, 97, 97, 97, 97, 97, 97, 97, 97, 97, 97, 97, 97, 97, 97, 97, 97, 97, 97, 97, 97, 97, 97, 97, 97, 97, 97, 97, 97, 97, 97, 97, 97, 97, 97, 97, 46, 101, 120, 97, 109, 112, 108, 101>>}
+SniCases == {[Base EXCEPT !.exts = <<Sni(hst), Sv(<<772, 771>>)>> \o (IF al THEN <<AlpnE(<<H2>>)>> ELSE <<>>)] : hst \in SniHosts, al \in BOOLEAN}
+
+Cases == CASE Fam = "sni" -> SniCases [] Fam = "recver" -> RecVerCases [] Fam = "lookalike" -> LookCases [] Fam = "alpn" -> AlpnCases [] Fam = "embed" -> EmbedCases [] Fam = "ver" -> VerCases [] Fam = "presence" -> PresenceCases [] Fam = "perm" -> PermCases
            [] Fam = "grease" -> GreaseCases [] Fam = "big" -> BigCases [] Fam = "sizes" -> SizeCases [] Fam = "misc" -> MiscCases
 CaseSeq == SetToSeq(Cases)
 
